@@ -11,7 +11,7 @@ ALL_KINDS = {"single", "owned", "boxed", "ref", "retry"}
 CORPORA = {
     # two threads, one call each; thread 1 ranges over everything, thread 2 over blocking holders
     "conc2": dict(
-        module="MC_conc.tla",
+        module="MC.tla",
         quick=dict(consts=dict(Kinds=ALL_KINDS, ApisA=ALL_APIS, ApisB={"lock", "read"},
                                UnivA={1, 2, 4}, UnivB={1, 4}, MaxLenA=2, MaxLenB=2,
                                Policies={"RP", "WP"}, NT=2, Keys={"owned", "lent"}),
@@ -23,7 +23,7 @@ CORPORA = {
     ),
     # three threads: rings and mixed kinds over three top-level locks
     "conc3": dict(
-        module="MC_conc.tla",
+        module="MC.tla",
         quick=dict(consts=dict(Kinds={"boxed", "retry", "single"}, ApisA={"lock", "try_lock", "read"},
                                ApisB={"lock"}, UnivA={1, 2, 3}, UnivB={1, 2, 3}, MaxLenA=2, MaxLenB=2,
                                Policies={"WP"}, NT=3, Keys={"owned"}),
@@ -36,13 +36,97 @@ CORPORA = {
     ),
 }
 
+SEQ_COLLS_MAIN = {1, 2, 3, 4, 6}
+CORPORA.update({
+    # single-thread histories over the key-affecting vocabulary (+ an optional holder thread)
+    "seqkey": dict(
+        module="MC.tla",
+        quick=dict(consts=dict(Family="seq", SeqColls={1}, SeqApis={"lock", "try_lock", "scoped_lock", "scoped_try_lock"},
+                               SeqRels={"drop", "unlock", "forget"}, SeqKeys={"owned", "lent"}, SeqBodies={"none", "panic"},
+                               SeqKeyOps={"probe", "getkey", "dropkey", "forgetkey"}, SeqMaxLen=3,
+                               SeqHolders={("none", 0), ("lock", 3)}, Policies={"RP"}),
+                   parts=14, max_runs=30000),
+        thorough=dict(consts=dict(Family="seq", SeqColls={1, 4, 8}, SeqApis={"lock", "try_lock", "scoped_lock", "scoped_try_lock", "read"},
+                                  SeqRels={"drop", "unlock", "forget"}, SeqKeys={"owned", "lent"}, SeqBodies={"none", "panic"},
+                                  SeqKeyOps={"probe", "getkey", "dropkey", "forgetkey"}, SeqMaxLen=3,
+                                  SeqHolders={("none", 0), ("lock", 3)}, Policies={"RP"}),
+                      parts=16, max_runs=300000),
+    ),
+    # single-thread sequences over every API flavour x release flavour x key style, with a holder
+    "seqapi": dict(
+        module="MC.tla",
+        quick=dict(consts=dict(Family="seq", SeqColls={1, 2, 3, 4, 5, 6, 13, 14}, SeqApis=ALL_APIS,
+                               SeqRels={"drop", "unlock"}, SeqKeys={"owned", "lent"}, SeqBodies={"acc"},
+                               SeqKeyOps=set(), SeqMaxLen=2,
+                               SeqHolders={("none", 0), ("lock", 3), ("read", 3), ("lock", 6)}, Policies={"RP", "WP"}),
+                   parts=14, max_runs=24000),
+        thorough=dict(consts=dict(Family="seq", SeqColls={1, 2, 3, 4, 5, 6, 7, 9, 13, 14}, SeqApis=ALL_APIS,
+                                  SeqRels={"drop", "unlock", "forget"}, SeqKeys={"owned", "lent"}, SeqBodies={"acc", "none"},
+                                  SeqKeyOps={"probe"}, SeqMaxLen=2,
+                                  SeqHolders={("none", 0), ("lock", 3), ("read", 3), ("lock", 6), ("read", 4)},
+                                  Policies={"RP", "WP"}),
+                      parts=16, max_runs=300000),
+    ),
+    # panics in user code at every critical section, poisonable wrappers everywhere
+    "panic": dict(
+        module="MC.tla",
+        quick=dict(consts=dict(Family="seq", SeqColls={3, 7, 8, 9, 11, 12, 15, 16}, SeqApis=ALL_APIS,
+                               SeqRels={"drop"}, SeqKeys={"owned"}, SeqBodies={"acc", "panic"},
+                               SeqKeyOps=set(), SeqTopOps={("is_poisoned", 8), ("clear_poison", 8), ("is_poisoned", 7)},
+                               SeqMaxLen=2, SeqHolders={("none", 0)}, Policies={"RP"}),
+                   parts=14, max_runs=24000),
+        thorough=dict(consts=dict(Family="seq", SeqColls={1, 2, 3, 4, 5, 6, 7, 8, 9, 10, 11, 12, 15, 16}, SeqApis=ALL_APIS,
+                                  SeqRels={"drop", "unlock"}, SeqKeys={"owned", "lent"}, SeqBodies={"acc", "panic"},
+                                  SeqKeyOps={"probe"}, SeqTopOps={("is_poisoned", 8), ("clear_poison", 8), ("is_poisoned", 7),
+                                                                  ("clear_poison", 7), ("is_poisoned", 11), ("clear_poison", 11)},
+                                  SeqMaxLen=2, SeqHolders={("none", 0), ("lock", 3), ("read", 3)}, Policies={"RP", "WP"}),
+                      parts=16, max_runs=300000),
+    ),
+    # two threads, thread 1's critical section panics; thread 2 waits for the same locks
+    "concpanic": dict(
+        module="MC.tla",
+        quick=dict(consts=dict(Kinds=ALL_KINDS, ApisA=ALL_APIS, ApisB={"lock", "read"},
+                               UnivA={1, 2, 4}, UnivB={1, 4}, MaxLenA=2, MaxLenB=2,
+                               Policies={"RP"}, NT=2, Keys={"owned", "lent"}, ConcBodies={"panic"}),
+                   parts=14, max_runs=20000),
+        thorough=dict(consts=dict(Kinds=ALL_KINDS, ApisA=ALL_APIS, ApisB=ALL_APIS,
+                                  UnivA={1, 2, 4}, UnivB={1, 2, 4}, MaxLenA=3, MaxLenB=2,
+                                  Policies={"RP", "WP"}, NT=2, Keys={"owned", "lent"}, ConcBodies={"panic"}),
+                      parts=16, max_runs=300000),
+    ),
+    # non-acquiring operations ({:?}, is_poisoned, clear_poison) against every held pattern
+    "ops": dict(
+        module="MC.tla",
+        quick=dict(consts=dict(Family="seq", SeqColls={1, 2, 3, 4, 5, 6, 7}, SeqApis={"lock", "read", "scoped_lock", "scoped_read"},
+                               SeqRels={"drop"}, SeqKeys={"owned"}, SeqBodies={"dbg"}, SeqDbgColls={1, 2, 3, 4, 5, 6, 7, 9, 13},
+                               SeqKeyOps=set(), SeqTopOps={("debug", 1), ("debug", 2), ("debug", 3), ("debug", 4), ("debug", 5),
+                                                           ("debug", 6), ("debug", 7), ("debug", 9), ("debug", 13),
+                                                           ("is_poisoned", 7), ("clear_poison", 7)},
+                               SeqMaxLen=1, SeqHolders={("none", 0), ("lock", 3), ("read", 3), ("lock", 6), ("lock", 13), ("read", 4)},
+                               Policies={"RP", "WP"}),
+                   parts=14, max_runs=30000),
+        thorough=dict(consts=dict(Family="seq", SeqColls={1, 2, 3, 4, 5, 6, 7, 9, 13, 14}, SeqApis=ALL_APIS,
+                                  SeqRels={"drop"}, SeqKeys={"owned"}, SeqBodies={"dbg"}, SeqDbgColls={1, 2, 3, 4, 5, 6, 7, 9, 13, 14},
+                                  SeqKeyOps=set(), SeqTopOps={("debug", 1), ("debug", 2), ("debug", 3), ("debug", 4), ("debug", 5),
+                                                              ("debug", 6), ("debug", 7), ("debug", 9), ("debug", 13), ("debug", 14),
+                                                              ("is_poisoned", 7), ("clear_poison", 7)},
+                                  SeqMaxLen=2, SeqHolders={("none", 0), ("lock", 3), ("read", 3), ("lock", 6), ("lock", 13), ("read", 4)},
+                                  Policies={"RP", "WP"}),
+                      parts=16, max_runs=300000),
+    ),
+})
+
 PROPS = {
     "C01": dict(corpora=["conc2", "conc3"], design="DESIGN.md §5 C01"),
     "C02": dict(corpora=["conc2"], design="DESIGN.md §5 C02"),
-    "C03": dict(corpora=["conc2"], design="DESIGN.md §5 C03"),
+    "C03": dict(corpora=["conc2", "seqapi"], design="DESIGN.md §5 C03"),
     "C04": dict(corpora=["conc2"], design="DESIGN.md §5 C04"),
-    "C05": dict(corpora=["conc2"], design="DESIGN.md §5 C05"),
+    "C05": dict(corpora=["conc2", "seqapi", "ops"], design="DESIGN.md §5 C05"),
     "C08": dict(corpora=["conc2"], design="DESIGN.md §5 C08"),
     "C09": dict(corpora=["conc2", "conc3"], design="DESIGN.md §5 C09"),
-    "C13": dict(corpora=["conc2"], design="DESIGN.md §5 C13"),
+    "C13": dict(corpora=["conc2", "seqapi"], design="DESIGN.md §5 C13"),
+    "C06": dict(corpora=["seqkey"], design="DESIGN.md §5 C06"),
+    "C10": dict(corpora=["panic"], design="DESIGN.md §5 C10"),
+    "C11": dict(corpora=["concpanic", "panic"], design="DESIGN.md §5 C11"),
+    "C17": dict(corpora=["ops"], design="DESIGN.md §5 C17"),
 }
